@@ -13,7 +13,7 @@ EXPLANATION = (
     'differently otherwise); R10.d the bridge obtains one bincode configuration, with fixed-width integers, for both '
     'directions; R10.e every register_types registers Self, Self::Output and at least today\'s hand-registered types, and '
     'generated Export impls call register_types of every non-skipped operation. Does not decide agreement of schema and '
-    'bytes per value, nor the generated foreign code. R10.f TypeGen obtains its registry through the checked Tracer::registry() and propagates its error. R10.h TypeGen::register_type / register_type_with_samples answer Ok only after a Tracer::trace_* call on the type they were given (no short cut by name). R10.g each bridge entry point hands the bincode serializer a Vec created empty in that call, gives it to nothing else and returns it: no byte of another (failed) serialisation can precede a message.')
+    'bytes per value, nor the generated foreign code. R10.f TypeGen obtains its registry through the checked Tracer::registry() and propagates its error. R10.h TypeGen::register_type / register_type_with_samples answer Ok only after a Tracer::trace_* call on the type they were given (no short cut by name). R10.g each bridge entry point hands the bincode serializer a Vec created empty in that call, gives it to nothing else and returns it: no byte of another (failed) serialisation can precede a message. R10.i each TypeGen register method calls exactly its tabled Tracer entry points: register_type traces exhaustively (trace_simple_type), only the *_with_samples / register_samples methods consult the sample store.')
 
 WIRE_CRATES = ['crux_core', 'crux_http', 'crux_kv', 'crux_time', 'crux_platform']
 
